@@ -355,7 +355,11 @@ def c04 (cfg : Cfg) (tr : List TE) : List Viol :=
         [{ sig := "topic-id-collides-with-predefined", detail := s!"t={s.t} id={id}" : Viol }] else []) ++
       (match handed.lookup id with
        | some n0 => if n0 != n then [{ sig := "topic-id-reassigned", detail := s!"t={s.t} id={id}" : Viol }] else []
-       | none => if h.exhaustedSeen then [{ sig := "new-topic-id-after-exhaustion", detail := s!"t={s.t} id={id}" : Viol }] else [])
+       | none =>
+         -- (an ID the registry had bound to this very name before — e.g. at a SUBSCRIBE the broker then refused —
+         -- is communicated late, not allocated now)
+         if h.exhaustedSeen && !h.gwReg.contains (id, n) then
+           [{ sig := "new-topic-id-after-exhaustion", detail := s!"t={s.t} id={id}" : Viol }] else [])
     -- every new binding in the handler's registry is justified by what was exchanged
     let h' := h.afterStep s
     let newBindings := h'.gwReg.filter fun b => !h.gwReg.contains b
@@ -619,7 +623,8 @@ def c11 (tr : List TE) : List Viol :=
             [{ sig := "queued-packet-dropped-on-repeated-sleep-request", detail := s!"t={s.t}" : Viol }])
         else []
       | _ =>
-        if h.asleep && !sent.isEmpty && !s.hasEnded then
+        let connackIn := match s.mqIn with | some (.connack _) => true | _ => false
+        if h.asleep && !sent.isEmpty && !s.hasEnded && !connackIn then
           [{ sig := "datagram-sent-to-sleeping-client", detail := s!"t={s.t}" }]
         else []
     -- timers must not send to a sleeping client either
@@ -657,7 +662,7 @@ def c06 (cfg : Cfg) (tr : List TE) : List Viol :=
       opens.any fun (m, t, k) => m == e.mid && t > e.t0 && t ≤ s.t && sideOf k == sideOf e.kind
     let miss := fun (e : Exchg) (what : String) =>
       let ks := others e
-      if supersededBySameSide e && (ks.all fun k => sideOf k == sideOf e.kind) then [] else
+      if supersededBySameSide e then [] else
       [{ sig := s!"ack-lost/{e.kind}/{what}{if ks.isEmpty then "" else "/same-msgid-collision/with=" ++ String.intercalate "+" ks}", detail := s!"t={s.t} mid={e.mid}" : Viol }]
     let find := fun (kind : String) (mid : UInt16) (stage : Nat) =>
       open_.find? fun (e : Exchg) => e.kind == kind && e.mid == mid && e.stage == stage
